@@ -180,7 +180,7 @@ def rotate_contains(S):
 
 
 # ----------------------------------------------------------------------------- C10 volumes
-@scenario("C10", [UNION + "._get_volume", CUT + "._get_volume", PROD + "._get_volume", TRANS + ".volume", ROT + ".volume", DOMAIN + ".set_volume", DOMAIN + ".volume"], configs=["union-disjoint", "cut-contained", "product-independent", "translate", "rotate", "user-volume"])
+@scenario("C10", [UNION + "._get_volume", CUT + "._get_volume", UNIONB + "._get_volume", CUTB + "._get_volume", PROD + "._get_volume", TRANS + ".volume", ROT + ".volume", DOMAIN + ".set_volume", DOMAIN + ".volume"], configs=["union-disjoint", "cut-contained", "union-disjoint-boundary", "cut-contained-boundary", "product-independent", "translate", "rotate", "user-volume"])
 def composite_volumes(S):
     """post: additive over disjoint unions, subtractive for contained cuts, multiplicative for independent
     products, unchanged by motions, overridden by set_volume"""
@@ -190,7 +190,15 @@ def composite_volumes(S):
     Tt = S.tensor("tt", [K, 1])
     params = S.new(POINTS, Tt, S.new(R1, "t"))
     va = lambda q: A.Vol(zreal(Tt.val.at([q[0], ()])))
-    if S.cfg in ("union-disjoint", "cut-contained"):
+    if S.cfg in ("union-disjoint-boundary", "cut-contained-boundary"):
+        # the boundary of a disjoint union / of a cut whose removed part is contained is the union of the two boundaries
+        B = abstract_domain(S, "B", sp, {"t": 1})
+        bva = lambda q: A.boundary.Vol(zreal(Tt.val.at([q[0], ()])))
+        bvb = lambda q: B.boundary.Vol(zreal(Tt.val.at([q[0], ()])))
+        inner = S.new(UNION, A.obj, B.obj, disjoint=True) if S.cfg.startswith("union") else S.new(CUT, A.obj, B.obj, contained=True)
+        dom = S.getattr(inner, "boundary")
+        want = lambda q: bva(q) + bvb(q)
+    elif S.cfg in ("union-disjoint", "cut-contained"):
         B = abstract_domain(S, "B", sp, {"t": 1})
         vb = lambda q: B.Vol(zreal(Tt.val.at([q[0], ()])))
         if S.cfg == "union-disjoint":
@@ -252,6 +260,16 @@ def composite_bounding_boxes(S):
         inset = combine(S.cfg, A.in_pred(x, t), B.in_pred(x, t))
         facts = [d.box_fact(x, t) for d in (A, B) if d.box is not None]
     S.ensure("encloses-the-composite-set", z3.Implies(inset, z3.And([z3.And(b[2 * i] <= x[i], x[i] <= b[2 * i + 1]) for i in range(nd)])), hy + facts)
+    if not prod:
+        # the boundary of the composite lies in the closed composite (A6): its box is the composite's box
+        bb = S.method(S.getattr(dom, "boundary"), "bounding_box", params).val
+        okb = bb.rank == 1 and bb.shape[0].concrete() == 2 * nd
+        S.ensure("boundary-box-is-a-flat-2dim-vector", okb)
+        if okb:
+            # a second evaluation of the operand boxes yields fresh box symbols: compare through the enclosure property
+            facts2 = [d.box_fact(x, t) for d in (A, B) if d.box is not None]
+            b2 = [zreal(bb.at([(j,)])) for j in range(2 * nd)]
+            S.ensure("boundary-box-encloses-the-composite-set", z3.Implies(inset, z3.And([z3.And(b2[2 * i] <= x[i], x[i] <= b2[2 * i + 1]) for i in range(nd)])), hy + facts2)
 
 
 # ----------------------------------------------------------------------------- C01 / C02 sampling
